@@ -91,10 +91,10 @@ class Effects:
         self.handlers_of: Dict[FuncInfo, Dict[ast.AST, List[List[str]]]] = {}
         self.returns_fresh: Dict[FuncInfo, bool] = {}
         self.pm: Dict[FuncInfo, Dict[ast.AST, ast.AST]] = {}
-        for f in self.sm.functions:
+        for f in self.cg.all_functions():
             self._local(f)
         self._solve_fresh()
-        for f in self.sm.functions:
+        for f in self.cg.all_functions():
             self._local_writes(f)
         self.summary_writes: Dict[FuncInfo, Set[Tuple]] = {}     # (root, field) -> exemplar kept separately
         self.write_exemplar: Dict[Tuple[FuncInfo, Tuple], Write] = {}
@@ -212,11 +212,11 @@ class Effects:
     # ------------------------------------------------------------------ freshness and roots of expressions
     def _solve_fresh(self):
         # returns_fresh: every return value is a fresh object (constructor call / fresh call / local fresh var)
-        for f in self.sm.functions:
+        for f in self.cg.all_functions():
             self.returns_fresh[f] = False
         for _ in range(6):
             changed = False
-            for f in self.sm.functions:
+            for f in self.cg.all_functions():
                 self._compute_var_roots(f)
                 rets = [n for n in walk_local(f.node, include_root=False) if isinstance(n, ast.Return)]
                 vals = [r.value for r in rets if r.value is not None and not (isinstance(r.value, ast.Constant) and r.value.value is None)]
@@ -226,7 +226,7 @@ class Effects:
                     changed = True
             if not changed:
                 break
-        for f in self.sm.functions:
+        for f in self.cg.all_functions():
             self._compute_var_roots(f)
 
     def _compute_var_roots(self, f: FuncInfo):
@@ -646,7 +646,7 @@ class Effects:
         return out
 
     def _solve_writes(self):
-        for f in self.sm.functions:
+        for f in self.cg.all_functions():
             s = set()
             for w in self.local_writes[f]:
                 if w.root in ('fresh', 'const'):
@@ -660,7 +660,7 @@ class Effects:
         while changed and rounds < 40:
             changed = False
             rounds += 1
-            for f in self.sm.functions:
+            for f in self.cg.all_functions():
                 cur = self.summary_writes[f]
                 for e in self.cg.out.get(f, []):
                     callee_sum = self.summary_writes.get(e.callee, set())
@@ -703,7 +703,7 @@ class Effects:
 
     def _solve_raises(self):
         # escaping exception classes per function: local raises not caught locally + callee escapes not caught at the call
-        for f in self.sm.functions:
+        for f in self.cg.all_functions():
             d = {}
             for r in self.local_raises[f]:
                 if not self.caught(f, r.node, r.exc):
@@ -714,7 +714,7 @@ class Effects:
         while changed and rounds < 40:
             changed = False
             rounds += 1
-            for f in self.sm.functions:
+            for f in self.cg.all_functions():
                 cur = self.summary_raises[f]
                 for e in self.cg.out.get(f, []):
                     for exc, site in list(self.summary_raises.get(e.callee, {}).items()):
